@@ -332,21 +332,42 @@ class ParserState(RuleAnalysis):
 
     def raise_fact(self, node, fact, token):
         if self._drives(node, fact[1]) and fact[0] in ("taken", "instate"):
-            return [("done" if fact[0] == "taken" else fact[0], fact[1])]
+            # the generator finished (StopIteration) or died: harmless if it was detached, a wedge if it is still parked
+            return [("done" if fact[0] == "taken" else "deadstate", fact[1])]
         return [fact]
+
+    def _resets_unconditionally(self, call):
+        """self.<helper>(...) whose body resets the attribute at its top level (not under a condition)"""
+        if not (isinstance(call.func, ast.Attribute) and dotted(call.func.value) == self.fn.self_name and self.fn.cls is not None):
+            return False
+        h = self.fn.cls.find_method(call.func.attr)
+        if h is None:
+            return False
+        attr = self.attr.split(".", 1)[1]
+        for st in h.node.body:
+            if isinstance(st, ast.Assign) and isinstance(st.value, ast.Constant) and st.value.value is None and any(dotted(t) == f"{h.self_name}.{attr}" for t in st.targets):
+                return True
+            if isinstance(st, ast.Assign) and isinstance(st.value, ast.Tuple) and any(isinstance(t, ast.Tuple) and any(dotted(x) == f"{h.self_name}.{attr}" and isinstance(v, ast.Constant) and v.value is None
+                                                                                                                       for x, v in zip(t.elts, st.value.elts)) for t in st.targets):
+                return True
+        return False
 
     def _assign(self, target, value, fact):
         state, alias = fact
         t, v = dotted(target), dotted(value) if value is not None else None
         if t == self.attr:
             if isinstance(value, ast.Constant) and value.value is None:
+                if state == "deadstate":
+                    return ("done", alias)
                 if state == "instate":
                     if alias is None:
                         self.dropped.append((target, "the attribute is reset while no local refers to the parser"))
                         return ("none", alias)
                     return ("taken", alias)
                 return (state if state != "instate" else "none", alias)
-            return ("instate", alias if v != alias else alias)
+            if state == "done" and v == alias:
+                return ("deadstate", alias)  # a finished generator is parked again
+            return ("instate", alias)
         if isinstance(target, ast.Name):
             if v == self.attr:
                 return (state, target.id)
@@ -358,6 +379,8 @@ class ParserState(RuleAnalysis):
         return fact
 
     def transfer(self, node, fact):
+        if isinstance(node, ast.Call) and fact[0] in ("deadstate", "instate") and self._resets_unconditionally(node):
+            return [("done" if fact[0] == "deadstate" else "none", fact[1])]
         if isinstance(node, ast.NamedExpr):
             return [self._assign(node.target, node.value, fact)]
         if isinstance(node, (ast.Assign, ast.AnnAssign)) and node.value is not None:
@@ -393,7 +416,7 @@ class ParserState(RuleAnalysis):
         return [fact], [fact]
 
 
-def check_parser(eng, run):
+def check_parser(eng, run, rule="C10.parser", dead_only=False):
     """a receive that ends without a packet (StopIteration: need more data, timeout, cancellation upstream) keeps the half-fed
     parser: it is never taken out of the consumer state and then forgotten"""
     n = 0
@@ -416,17 +439,24 @@ def check_parser(eng, run):
         out = Interp(an, fn).run()
         n += 1
         bad = []
+        dead = []
         for kind, tok, fmap in [("return", None, out.ret)] + [("raise", t, m) for t, m in out.exc.items()]:
             for fact, tr in fmap.items():
-                if fact[0] == "taken":
+                if fact[0] == "taken" and not dead_only:
                     bad.append((f"{kind}{'[' + tok + ']' if tok else ''}", tr))
+                if fact[0] == "deadstate":
+                    dead.append((f"{kind}{'[' + tok.split('.')[-1] + ']' if tok else ''}", tr))
+        for label, tr in dead[:1]:
+            run.finding(rule, fn, _line_stmt(fn, tr[-1]) if tr else fn.node, f"exit {label} while a finished / dead packet parser is still parked in `{attr}`: the next call resumes it, "
+                        "a TypeError escapes and the consumer stays wedged for every later receive", tr)
+        bad = bad + dead if False else bad
         for label, tr in bad[:1]:
-            run.finding("C10.parser", fn, _line_stmt(fn, tr[-1]) if tr else fn.node, f"exit {label} after the half-fed parser was taken out of `{attr}` and neither driven nor stored back: "
+            run.finding(rule, fn, _line_stmt(fn, tr[-1]) if tr else fn.node, f"exit {label} after the half-fed parser was taken out of `{attr}` and neither driven nor stored back: "
                         "every byte of the incomplete packet received before a timed-out / cancelled receive is forgotten", tr)
-        for node, msg in an.dropped[:1]:
-            run.finding("C10.parser", fn, _line_stmt(fn, node.lineno), msg)
-        run.ob("C10.parser", f"{fn.short}:{attr}:never-dropped", not bad and not an.dropped, exits=len(out.ret) + sum(len(m) for m in out.exc.values()))
-    run.floor("C10.parser consumers", n, 2)
+        for node, msg in ([] if dead_only else an.dropped[:1]):
+            run.finding(rule, fn, _line_stmt(fn, node.lineno), msg)
+        run.ob(rule, f"{fn.short}:{attr}:never-dropped-nor-parked-dead", not bad and not dead and not (an.dropped and not dead_only), exits=len(out.ret) + sum(len(m) for m in out.exc.values()))
+    run.floor(f"{rule} consumers", n, 2)
 
 
 # ------------------------------------------------------------------------------------------ C10.eof
